@@ -274,6 +274,18 @@ theorem finished_stream_leaves_no_entry (t : Table) (id : Nat) (late : List Op)
     (hno : ∀ op ∈ late, op ≠ .request id) : ∀ e ∈ run (step t (.close id)) late, e.id ≠ id :=
   removed_stays_removed late _ id (shutdown_both_removes t id) hno
 
+/-- a new request opens its stream with both halves open, whatever an earlier stream of that id left
+behind: afterwards the only entry for the id is the fresh one -/
+theorem request_opens_fresh (t : Table) (id : Nat) :
+    (⟨id, false, false⟩ : Entry) ∈ step t (.request id) ∧
+    ∀ e ∈ step t (.request id), e.id = id → e = ⟨id, false, false⟩ := by
+  refine ⟨by simp [step], ?_⟩
+  intro e he heq
+  simp only [step, List.mem_append, List.mem_filter, List.mem_singleton] at he
+  rcases he with ⟨_, hne⟩ | h
+  · simp [heq] at hne
+  · exact h
+
 example : run [] [.request 0, .shutdown 0 .both, .request 4, .readFinished 4, .shutdown 4 .read, .request 8,
     .shutdown 4 .write, .close 8, .failed 8] = [] := by decide
 example : run [] [.request 0, .request 4, .readFinished 0, .shutdown 0 .read, .shutdown 4 .write]
